@@ -213,7 +213,16 @@ fn run_case(c: &Case, r: &mut Rng, model: &mut Model) -> Outcome {
     quiver_io::attach_file_builtins(&mut b);
     let mut sim = Sim::new(c.n_workers, c.quantum, b, true);
     let sh = BShared::new();
-    let scratch = std::env::temp_dir().join(format!("qverif-c14-{}", std::process::id()));
+    // prefer a memory file system for the scratch files: fsync on a busy disk can take seconds
+    let shm = std::path::PathBuf::from("/dev/shm");
+    let probe = shm.join(format!("qverif-c14-probe-{}", std::process::id()));
+    let base = if std::fs::create_dir_all(&probe).is_ok() {
+        let _ = std::fs::remove_dir_all(&probe);
+        shm
+    } else {
+        std::env::temp_dir()
+    };
+    let scratch = base.join(format!("qverif-c14-{}", std::process::id()));
     if c.native {
         let _ = std::fs::remove_dir_all(&scratch);
         match WrapBackend::new(sh.clone(), scratch.clone()) {
@@ -270,6 +279,13 @@ fn run_case(c: &Case, r: &mut Rng, model: &mut Model) -> Outcome {
                 Ok((v, heap)) => sim.canon(&v, &heap),
                 Err(e) => format!("error:{}", qverif::canon::error_class(&e)),
             });
+        }
+        if sh.lock().aborted {
+            // the real backend did not complete an operation in time: inconclusive, not a finding
+            out.problems.clear();
+            out.counters.push("native:abandoned(operation did not complete in 20 s)".into());
+            let _ = std::fs::remove_dir_all(&scratch);
+            return out;
         }
         let pending_backend = sh.lock().pending.len();
         let choice = if let Some(ch) = forced.pop() {
